@@ -871,6 +871,13 @@ pub fn run_c10(rep: &mut StageReport, tier: &str, _seed: u64) {
         for i in 0..(if n > 2 { 12 } else { 3 }) {
             out.push(tokio::time::timeout(Duration::from_secs(60), super::wirepeers::c10_first_registrations_race(server.addr, &certs, i as u64)).await.map_err(|_| "watchdog: first-registrations race did not finish in 60 s".to_string()).and_then(|r| r));
         }
+        // the rejected replier is slow to take the refusal (its window holds the Ok but not the error frame)
+        for (i, (win, stall)) in [(32u32, 500u64), (12, 300), (48, 50), (60, 800), (9, 200), (20, 1200)].into_iter().enumerate() {
+            if n <= 2 && i >= 3 {
+                break;
+            }
+            out.push(tokio::time::timeout(Duration::from_secs(60), super::wirepeers::c10_slow_rejected_replier(server.addr, &certs, i as u64, win, stall)).await.map_err(|_| "watchdog: slow rejected replier scenario did not finish in 60 s".to_string()).and_then(|r| r));
+        }
         server.stop();
         Ok::<_, String>(out)
     });
